@@ -28,7 +28,7 @@ func freshErr(e *Exec, st *State, hint string) Term {
 func freshStr(e *Exec, st *State, hint string) Term {
 	e.S.needStr()
 	s := e.Ctx.Fresh("s_"+hint, SStr)
-	e.Ctx.Assume(st.PC, Ge(app(SInt, "str_len", s), Int(0)))
+	e.Ctx.Assume(st.PC, And(Ge(app(SInt, "str_len", s), Int(0)), Le(app(SInt, "str_len", s), IntS(maxLen))))
 	return s
 }
 
@@ -312,7 +312,7 @@ func sprintfModel(e *Exec, st *State, call *ast.CallExpr, args []Term) Term {
 	name := "sprintf_" + mangle(strings.Join(sorts[1:], "_"))
 	e.Ctx.DeclareFun(name, sorts, SStr)
 	r := app(SStr, name, vs...)
-	e.Ctx.Assume(st.PC, Ge(app(SInt, "str_len", r), Int(0)))
+	e.Ctx.Assume(st.PC, And(Ge(app(SInt, "str_len", r), Int(0)), Le(app(SInt, "str_len", r), IntS(maxLen))))
 	return r
 }
 
